@@ -683,18 +683,28 @@ def stub_get_sp_from_ws(interp, b):
 class GetSP(PContract):
     target = f"{PRJ}.Project._get_statepoint"
     properties = ("C01", "C08", "C09")
-    callees = {f"{PRJ}.Project._get_statepoint_from_workspace": stub_get_sp_from_ws}
+
+    def make_ctx(self, case):
+        ctx = super().make_ctx(case)
+        ctx.callee_contracts[f"{PRJ}.Project._get_statepoint_from_workspace"] = stub_get_sp_from_ws
+        ctx.callee_contracts[f"{PRJ}.Project._read_cache"] = lambda interp, b: stub_read_cache(interp, b)
+        return ctx
 
     def cases(self):
-        return [{"validate": True}, {"validate": False}]
+        # cache_read=False: the first look-up of a session, which merges the persistent cache file (possibly stale: it may lack jobs that
+        # exist and name jobs that are gone) into the in-memory cache before looking the id up
+        return [{"validate": v, "cache_read": r} for r in (True, False) for v in (True, False)]
 
     def setup(self, interp, case):
-        proj = self.fresh_project(interp)
+        proj = self.fresh_project(interp, cache_read=case["cache_read"])
+        ex, ctx = interp.ex, interp.ctx
         i = z3.Const("id_q", Id)
-        interp.ex.assume(CALC(NONEV) != i)
+        ex.assume(CALC(NONEV) != i)
         kw = {} if case["validate"] else {"validate": False}
         c = proj.fields["_sp_cache"]
-        return [proj, SId(i)], kw, {"proj": proj, "p": proj.p, "i": i, "dom0": c.dom, "val0": c.val}
+        n = ctx.fs0.pf[PF.mk(proj.p, PName.CACHE)]
+        ex.assume(z3.Implies(z3.And(Node.is_File(n), cache_ok(Node.data(n))), file_valid(Node.data(n))))
+        return [proj, SId(i)], kw, {"proj": proj, "p": proj.p, "i": i, "dom0": c.dom, "val0": c.val, "node": n}
 
     def post(self, interp, case, pre, outcome):
         from signac.errors import JobsCorruptedError
@@ -703,14 +713,20 @@ class GetSP(PContract):
         c = proj.fields["_sp_cache"]
         k = JD.mk(p, i)
         n = fs0.ent[k][Name.SP]
+        cn = pre["node"]
+        d = Node.data(cn)
+        if case["cache_read"]:
+            hit, hitval = pre["dom0"][i], pre["val0"][i]
+        else:
+            in_file = z3.And(Node.is_File(cn), cache_ok(d), cache_dom(d, i))
+            hit, hitval = z3.Or(pre["dom0"][i], in_file), z3.If(in_file, cache_val(d, i), pre["val0"][i])
         ex.oblige(self.oname("frame:reads_only"), ctx.fs.eq(fs0))
         if case["validate"]:
             ex.oblige(self.oname("inv:cache_entries_hash_to_their_key"), c.valid())
         if outcome[0] == "return":
             v = outcome[1]
-            hit = pre["dom0"][i]
             ex.oblige(self.oname("ensures:cache_hit_or_validated_workspace_value"),
-                      z3.If(hit, v.e == pre["val0"][i], z3.And(fs0.dirs[k], Node.is_File(n), jsonok(Node.data(n)), v.e == parsed(Node.data(n))))
+                      z3.If(hit, v.e == hitval, z3.And(fs0.dirs[k], Node.is_File(n), jsonok(Node.data(n)), v.e == parsed(Node.data(n))))
                       if isinstance(v, SSP) else z3.BoolVal(False))
             if case["validate"]:
                 # transparency: whether it came from the cache or from disk, the value hashes to the id
@@ -718,9 +734,18 @@ class GetSP(PContract):
             ex.oblige(self.oname("ensures:result_registered_in_the_cache"), z3.And(c.dom[i], c.val[i] == v.e) if isinstance(v, SSP) else z3.BoolVal(False))
         else:
             exc = outcome[1]
-            ex.oblige(self.oname("raises:only_on_a_cache_miss"), z3.Not(pre["dom0"][i]))
+            if not case["cache_read"] and isinstance(exc, (SymOSError, json.JSONDecodeError)):
+                # the cache file itself cannot be read / decoded (the rejection of _read_cache, passed on)
+                ex.oblige(self.oname("raises:cache_file_errors_only_for_an_unreadable_cache_file"),
+                          z3.Or(z3.BoolVal(isinstance(exc, SymOSError)), z3.And(Node.is_File(cn), z3.Not(cache_ok(d)))))
+                ex.oblige(self.oname("raises:cache_unchanged"), z3.And(c.dom == pre["dom0"], c.val == pre["val0"]))
+                return
+            # a job that exists is found whatever the cache file says: a miss in a stale cache file goes to the workspace
+            ex.oblige(self.oname("raises:only_on_a_cache_miss"), z3.Not(hit))
             ex.oblige(self.oname("raises:JobsCorruptedError_or_KeyError"), z3.BoolVal(isinstance(exc, (JobsCorruptedError, KeyError))))
-            ex.oblige(self.oname("raises:cache_unchanged"), z3.And(c.dom == pre["dom0"], c.val == pre["val0"]))
+            ex.oblige(self.oname("raises:KeyError_only_if_there_is_no_such_directory"), z3.Implies(z3.BoolVal(isinstance(exc, KeyError)), z3.Not(fs0.dirs[k])))
+            if case["cache_read"]:
+                ex.oblige(self.oname("raises:cache_unchanged"), z3.And(c.dom == pre["dom0"], c.val == pre["val0"]))
 
 
 # ============================================================================= Project.check
